@@ -441,7 +441,8 @@ fn sf_of(n: &str) -> Option<SpreadingFactor> {
     SFS.iter().copied().find(|s| s.factor().to_string() == n)
 }
 fn bw_of(n: &str) -> Option<Bandwidth> {
-    BWS.iter().copied().find(|s| s.hz().to_string() == n)
+    // a bandwidth is named by the datasheet's figure in Hz (legacy replays, the C13 table) or by the crate's current hz()
+    crate::c13::bw_of(n).or_else(|| BWS.iter().copied().find(|s| s.hz().to_string() == n))
 }
 
 /// Evaluate one op line on the real code. For obs-carrying ops the trailing `obs` word is ignored.
